@@ -1021,6 +1021,11 @@ func (index *ValidatorIndex) List() []common.Address {
 	return list
 }
 
+func (index *ValidatorIndex) Has(mainAddress common.Address) bool {
+	_, ok := index.data.Load(mainAddress)
+	return ok
+}
+
 func (index *ValidatorIndex) Add(mainAddress common.Address) {
 	index.data.Store(mainAddress, nil)
 }
